@@ -8,6 +8,7 @@ the history from the empty state and answers; the executable specification judge
 *implementation's* answer against the set of pending challenges (computed from the
 events alone).
 
+  (<cfg> = the node's configured issuers, `i` as *ACMEIssuer or `iw` behind the Issuer interface)
   http  <lm> <sp> <fd> <issuers> <chals> <hist> <node> <cfg> <dis> <method> <path> <host> … => pass | serve <body>
   alpn  <lm> <sp> <fd> <issuers> <chals> <hist> <node> <cfg> <sni> <protos> …             => normal | fail | cert <san> <chal#> <cached>
   state <lm> <sp> <fd> <issuers> <chals> <hist> <node>                                     => <memory keys> <token files>
@@ -117,8 +118,11 @@ def mkWorld (lm sp fd is ch hist : String) : Option World := do
   pure { E := mkEnv lm sp fd, issuers := issuers, chals := chals, evs := evs, pending := pending }
 
 def cfgPrefixes (w : World) (cfg : String) : Option (List Str) := do
-  let idx ← allSome ((splitList cfg ",").map String.toNat?)
-  let is ← allSome (idx.map (fun i => w.issuers[i]?))
+  -- "<issuer#>" = configured as *ACMEIssuer; "<issuer#>w" = configured behind the Issuer
+  -- interface (a wrapper reporting the inner IssuerKey)
+  let is ← allSome ((splitList cfg ",").map (fun t =>
+    if t.endsWith "w" then (do let i ← (t.dropRight 1).toNat?; let x ← w.issuers[i]?; pure (ifaceView x))
+    else (do let i ← t.toNat?; w.issuers[i]?)))
   pure (searchPrefixes is)
 
 /-- pending challenges visible to `node` searching `ps`, with their table index -/
